@@ -282,7 +282,8 @@ def gen_leaf(rng, cls, d, benign=False):
         if rng.random() < 0.5:
             start = int(rng.integers(0, d))
             cols = list(range(start, d))
-            sel = {"start": start}
+            # documented as the slice X[:, start:], so "the last n features" (negative start) names the same columns
+            sel = {"start": start - d if rng.random() < 0.35 else start}
         else:
             ispec, cols = _index_spec(rng, d, allow_slice=False)
             sel = {"active_dims": ispec}
